@@ -20,6 +20,7 @@ from hypothesis import strategies as st
 
 from ..core import HarnessError, fmt_exc, innermost_pkg_frame, run_given, short
 from ..gen import fam14 as FAM
+from ..gen.fam14deep.sub import mod as _DEEP  # noqa: F401  (imported so that its class is a known subclass, like the rest of the family)
 from ..gen import types as G
 
 ID = "C14"
@@ -47,7 +48,9 @@ MODEL = {
     "Req": {"r": ("int", True), "a": ("int", False), "b": ("str", False)},
     "Loose": {"a": ("int", False)},
     "GrandChild": {"e": ("listint", False), "c": ("float", False), "a": ("int", False), "b": ("str", False)},
+    "Widget": {"w": ("int", False), "a": ("int", False), "b": ("str", False)},  # lives three packages down; a *different* object is called Widget higher up
 }
+CP = {"Widget": "vf.gen.fam14deep.sub.mod.Widget"}
 FACTORIES = {"make_base": ({"a": ("int", False)}, "Base"), "make_child": ({"c": ("float", False)}, "Child")}
 NOT_SUB = ["Other", "not_a_class", "nothing_here", "Abstract", "Concrete", "LOG", "make_other", "Holder"]
 NOT_SUB_PATHS = [M + x for x in NOT_SUB] + ["nomod.X", "os.path", "os", "", "vf.gen.fam14", "5"]
@@ -71,7 +74,7 @@ def case_strategy():
             f = draw(st.sampled_from(sorted(FACTORIES)))
             cp, params, cls = M + f, FACTORIES[f][0], f
         else:
-            cp, params = M + cls, MODEL[cls]
+            cp, params = CP.get(cls, M + cls), MODEL[cls]
         ia = {}
         for k, (t, req) in params.items():
             if req and kind != "missing_req":
@@ -455,7 +458,7 @@ def run_class_change(ctx, case, p):
         if ch["how"] == "argv-argv":
             cfg = p.parse_args(["--m", first] + first_opts + later)
         else:
-            cfg = p.parse_args(["--cfg", json.dumps({"m": {"class_path": M + first, "init_args": fia}})] + later)
+            cfg = p.parse_args(["--cfg", json.dumps({"m": {"class_path": CP.get(first, M + first), "init_args": fia}})] + later)
     except ArgumentError as ex:
         ctx.finding(f"C14/class-change-rejected/{ch['how']}", {"first": first, "final": final, "error": short(str(ex), 300)})
         return
@@ -515,11 +518,20 @@ def health(tier, evaluations, nontrivial, classes):
     return msgs
 
 
+def _resolve(cls):
+    import importlib
+
+    if cls in CP:
+        mod, name = CP[cls].rsplit(".", 1)
+        return getattr(importlib.import_module(mod), name)
+    return getattr(FAM, cls)
+
+
 def self_test():
     """the interpreter validates the model of the family"""
     sample = {"int": 1, "str": "s", "float": 1.5, "optint": None, "listint": [1]}
     for cls, params in MODEL.items():
-        k = getattr(FAM, cls)
+        k = _resolve(cls)
         if not issubclass(k, FAM.Base):
             raise HarnessError(f"model: {cls} is not a subclass of Base")
         k(**{n: sample[t] for n, (t, _r) in params.items()})
